@@ -396,7 +396,9 @@ def mutate_doc(r, doc, kind):
         return None
     if kind == "drop_pos":
         for i in idx:
-            if recs[i].rt in G.POS[version] and recs[i].rt != "H" and len(recs[i].pos) >= 2:
+            if recs[i].rt in G.POS[version] and recs[i].rt != "H" and len(recs[i].pos) >= 2 and not recs[i].tags:
+                # (a record without tags: a tag could take the place of the missing field - 'S A 1 FC:i:0' is the
+                #  GFA2 segment A of length 1 with the sequence 'FC:i:0')
                 recs[i].pos.pop(r.randrange(len(recs[i].pos)))
                 return out(), "refuse"
         return None
